@@ -17,6 +17,7 @@ type Env struct {
 	calleeAlloc0 string // when evaluating a callee's contract at a call site: its entry allocation counter
 	depth        int
 	entryVars    map[string]Val // parameter entry values: what names denote inside old(...)
+	recDefining  string         // name of the recursive spec function whose body is being translated
 }
 
 func (e *Env) clone() *Env {
@@ -665,6 +666,9 @@ func (g *FuncGen) applySpec(sf *SpecFunc, args []Val, env *Env) (Val, error) {
 	if err != nil {
 		return Val{}, err
 	}
+	if sf.Rec {
+		return g.applyRec(sf, args, env, spkg, rt)
+	}
 	if sf.Macro {
 		if env.depth > 40 {
 			return Val{}, fmt.Errorf("predicate %s: expansion too deep (recursive?)", sf.Name)
@@ -731,7 +735,15 @@ func (g *FuncGen) ensureSpecDefined(sf *SpecFunc) error {
 	if err != nil {
 		return fmt.Errorf("spec %s: %v", sf.Name, err)
 	}
-	if sf.Raw == "uninterpreted" {
+	isOpaque := false
+	if g.rootC != nil {
+		for _, o := range g.rootC.Opaque {
+			if o == sf.Name {
+				isOpaque = true
+			}
+		}
+	}
+	if sf.Raw == "uninterpreted" || isOpaque {
 		var ss []string
 		for i := range sf.Params {
 			pt, _ := g.eng.resolveType(sf.PTypes[i], spkg)
@@ -861,4 +873,73 @@ func (g *FuncGen) ghostMap(t types.Type, name string) (MapRef, types.Type, error
 		return g.mr("G:"+typeName(t)+"."+name, "(Array Int "+g.w.SortOf(ft)+")"), ft, nil
 	}
 	return MapRef{}, nil, fmt.Errorf("no ghost field %s declared for %s", name, typeName(t))
+}
+
+
+// applyRec: recursive heap-reading spec function. Defined once per query
+// context as define-fun-rec whose extra parameters are the heap maps its body
+// reads; applied to the heap of the use site.
+func (g *FuncGen) applyRec(sf *SpecFunc, args []Val, env *Env, spkg *types.Package, rt types.Type) (Val, error) {
+	key := q("rec:" + sf.Name)
+	if env.recDefining == sf.Name {
+		// recursive occurrence inside the body: same heap parameters
+		parts := []string{key}
+		for i := range args {
+			a := args[i]
+			pt, _ := g.eng.resolveType(sf.PTypes[i], spkg)
+			if isUntyped(a.Type) && pt != nil {
+				a, _ = g.unify(a, Val{"", pt})
+			}
+			parts = append(parts, a.Term)
+		}
+		return Val{"(" + strings.Join(parts, " ") + " @@MAPS:" + sf.Name + "@@)", rt}, nil
+	}
+	maps, ok := g.recMaps[sf.Name]
+	if !ok {
+		ph := g.newHeap(hParam)
+		e2 := &Env{g: g, vars: map[string]Val{}, heap: ph, old: ph, pkg: spkg, recDefining: sf.Name}
+		var ps []string
+		for i, p := range sf.Params {
+			pt, err := g.eng.resolveType(sf.PTypes[i], spkg)
+			if err != nil {
+				return Val{}, err
+			}
+			pn := q("rp:" + p)
+			ps = append(ps, fmt.Sprintf("(%s %s)", pn, g.w.SortOf(pt)))
+			e2.vars[p] = Val{pn, pt}
+		}
+		v, err := g.eval(sf.Body, e2)
+		if err != nil {
+			return Val{}, fmt.Errorf("rec %s: %v", sf.Name, err)
+		}
+		v2, _ := g.unify(v, Val{"", rt})
+		maps = ph.paramOrder
+		var mp, mnames []string
+		for _, m := range maps {
+			mp = append(mp, fmt.Sprintf("(%s %s)", q("hp:"+m[0]), m[1]))
+			mnames = append(mnames, q("hp:"+m[0]))
+		}
+		body := strings.ReplaceAll(v2.Term, " @@MAPS:"+sf.Name+"@@", " "+strings.Join(mnames, " "))
+		if len(mnames) == 0 {
+			body = strings.ReplaceAll(v2.Term, " @@MAPS:"+sf.Name+"@@", "")
+		}
+		g.specDefs = append(g.specDefs, fmt.Sprintf("(define-fun-rec %s (%s) %s %s)", key, strings.Join(append(ps, mp...), " "), g.w.SortOf(rt), body))
+		if g.recMaps == nil {
+			g.recMaps = map[string][][2]string{}
+		}
+		g.recMaps[sf.Name] = maps
+	}
+	parts := []string{key}
+	for i := range args {
+		a := args[i]
+		pt, _ := g.eng.resolveType(sf.PTypes[i], spkg)
+		if isUntyped(a.Type) && pt != nil {
+			a, _ = g.unify(a, Val{"", pt})
+		}
+		parts = append(parts, a.Term)
+	}
+	for _, m := range maps {
+		parts = append(parts, g.heapGet(env.heap, m[0], m[1]))
+	}
+	return Val{"(" + strings.Join(parts, " ") + ")", rt}, nil
 }
